@@ -905,7 +905,7 @@ def requirements(tier):
         'events': {'fit_peaks': 100 * k, 'result_in_order': 150 * k, 'statistics.result': 100 * k,
                    'statistics.perform_fit': 200 * k, 'success_requirements': 40 * k,
                    'model_order': 150 * k, 'isolation': 150 * k, 'auto_window': 150 * k,
-                   'auto_window_separation': 60 * k, 'too_narrow_rule': 30 * k,
+                   'auto_window_separation': 60 * k, 'too_narrow_rule': 10 * k,
                    'remove_peaks': 100 * k, 'remove.inside': 1000 * k, 'remove.outside': 1000 * k,
                    '_assess_fit': 150 * k},
         'forced': ['window with fewer points than parameters', 'estimate outside the data',
